@@ -17,7 +17,8 @@ META = {
              "timeouts are not modelled); graceful stop is covered only as `Close()` with nothing in flight (tryToCloseAllSwamps calls "
              "Close() without looking at vigils — the same window as the idle close, not forced here); the three CloneAndDelete* "
              "auto-destroy sites share the DeleteTreasure shape and are not driven separately; keys are a set (values are carried by "
-             "the driver).  The Go scheduler is driven, not enumerated.  Trusted: Lean kernel, extract/c16.go, harness/c16.go, "
+             "the driver); acknowledged *deletes* are checked by the correspondence and the Spec oracle only (the Lean statement is "
+             "about acknowledged inserts/updates).  The Go scheduler is driven, not enumerated.  Trusted: Lean kernel, extract/c16.go, harness/c16.go, "
              "sync.Cond / atomic semantics."),
     "design_ref": "§8 C16",
 }
@@ -25,6 +26,9 @@ META = {
 FINDINGS = {
     "C16-auto-destroy-loses-acked-write": "Destroy (after the last record was deleted) drains in-flight vigils and then deletes the file "
                                           "without looking again: an insert acknowledged during the drain disappears with the swamp",
+    "C16-delete-after-recreate-resurrects": "delete, set, delete on a key that is in the file: the set drops the queued delete marker and "
+                                            "the second delete sees an object without a file pointer and queues nothing, so the "
+                                            "acknowledged delete never reaches the file and the old record is back after re-opening",
     "C16-idle-close-loses-acked-write": "the close listener decides from a last-interaction time it read before taking its lock, and "
                                         "SummonSwamp hands out the instance before the caller's BeginVigil: a request that was just "
                                         "handed the instance writes into an instance that is already closed; the acknowledged write is "
@@ -71,7 +75,7 @@ def run(ctx):
     corrs = []
     if K.build_hx(ctx) and K.build_drv(ctx):
         args = ["%s=%s" % (k, facts.get(k, "unknown")) for k in
-                ("destroyRechecksAfterDrain", "listenerReadsTouchUnderLock", "summonTakesVigil")]
+                ("destroyRechecksAfterDrain", "listenerReadsTouchUnderLock", "summonTakesVigil", "recreateDropsDeleteMarker")]
         c = K.correspondence(ctx, "C16", args, timeout=900)
         corrs.append(("C16", args, c))
     else:
